@@ -40,6 +40,7 @@ func absRid(s string) string {
 
 var kindNames = map[string]string{"image": "KImage", "header": "KHeader", "footer": "KFooter", "numbering": "KNumbering",
 	"footnotes": "KFootnotes", "endnotes": "KEndnotes", "settings": "KSettings", "styles": "KStyles"}
+
 // relationship types the library has no special handling for; the last ones share a prefix or a substring with types
 // it does handle (Word 2010 writes stylesWithEffects)
 var otherKinds = []string{"hyperlink", "theme", "fontTable", "webSettings", "customXml", "stylesWithEffects", "imagePlaceholder", "footnotesSeparator", "headerSource", "numberingOverrides"}
